@@ -202,7 +202,7 @@ def run_given(ctx, strategy, body, max_examples, label="main", shrink=None, roun
     for rnd in range(rounds):
         if remaining <= 0:
             break
-        start_evals = ctx.evaluations
+        calls = [0]
         st_settings = settings(
             max_examples=remaining, database=None, deadline=None, derandomize=False,
             report_multiple_bugs=False, phases=phases, print_blob=False,
@@ -214,6 +214,7 @@ def run_given(ctx, strategy, body, max_examples, label="main", shrink=None, roun
         @st_settings
         @given(strategy)
         def test(case):
+            calls[0] += 1
             body(case)
 
         try:
@@ -224,7 +225,7 @@ def run_given(ctx, strategy, body, max_examples, label="main", shrink=None, roun
             ctx.record_violation(key, detail, case)
         except hypothesis.errors.Flaky as e:   # nondeterminism is a harness problem
             raise HarnessError("flaky test body in %s/%s: %s" % (ctx.pid, label, e))
-        remaining -= max(1, ctx.evaluations - start_evals)
+        remaining -= max(1, calls[0])
     return
 
 
